@@ -254,9 +254,37 @@ var ghostRecNext func(d []byte, o int) int
 // ---- table file cleanup (C09): the garbage-collection callback of a table
 // loaded from a checkpoint document deletes the file only after the ownership
 // policy answered (true, nil).
+// A clean-up deletes the file only when it released the LAST table object of the process that
+// reads it (a database restored from a checkpoint of an instance of the same process - an operator
+// redeployed in its process - opens the tables the old instance wrote; collecting the old instance
+// must not delete them). Every table object is counted when it is created. The counter itself (a
+// package-level map under a mutex) is not modelled: retainFile/releaseFile are trusted, and within
+// one clean-up releaseFile's answer is treated as a function of the URI (`pure`), so that "the file
+// is deleted only if the release answered: last" can be stated at the call of the delete function.
+//@ func retainFile
+//@   property C09
+//@   trusted
+//@ func releaseFile
+//@   property C09
+//@   trusted
+//@   pure
+//@ func NewTable
+//@   property C09
+//@   nosafety
+//@   ensures called(retainFile)
+//@   order AddCleanup after retainFile
+//@ func NewTable$0
+//@   property C09
+//@   nosafety
+//@   order deleteFunc after releaseFile
+//@   atcall releaseFile: arg0 == p.uri
+//@   atcall deleteFunc: releaseFile(p.uri)
 //@ func NewTableFromDocument$0
 //@   property C09
-//@   atcall deleteFunc: canDelete && err == nil
+//@   order deleteFunc after releaseFile
+//@   order ExclusivelyOwnsTable after releaseFile
+//@   atcall releaseFile: arg0 == p.uri
+//@   atcall deleteFunc: canDelete && err == nil && releaseFile(p.uri)
 //@   atcall ExclusivelyOwnsTable: arg0 == p.uri && same(arg1, p.startKey) && same(arg2, p.endKey)
 
 // ... and the callback is registered with the table's own URI and its whole key range (the
@@ -265,6 +293,9 @@ var ghostRecNext func(d []byte, o int) int
 //@   property C09
 //@   nosafety
 //@   atcall AddCleanup: arg2.uri == doc.URI && same(arg2.startKey, doc.StartKey) && same(arg2.endKey, doc.EndKey) && same(arg2.dataOwnership, dataOwnership)
+//@   ensures called(retainFile)
+//@   atcall retainFile: arg0 == doc.URI
+//@   order AddCleanup after retainFile
 //@   ensures result != nil && same(result.startKey, doc.StartKey) && same(result.endKey, doc.EndKey) && result.startSeqNum == doc.StartSeqNum && result.endSeqNum == doc.EndSeqNum
 
 // ghostTableURI: the URI of a table's file (fixed when the table is created).
